@@ -1,6 +1,6 @@
 (* C14 - packet identifiers stay in 1..65535 and are never shared by live messages.
    Only statements, each closed by [exact]; see Codec/MidProofs.v, Session/*. *)
-From PahoV Require Import Base.Prelude Codec.Mid Codec.MidProofs Codec.MidBridge Gen.GenMid.
+From PahoV Require Import Base.Prelude Codec.Mid Codec.MidProofs Codec.MidPeriod Codec.MidBridge Gen.GenMid.
 From PahoV Require Import Session.Model Session.C14Session.
 
 (* the source's _mid_generate (translated on every run) is the model's mid_next *)
@@ -34,6 +34,28 @@ Theorem C14_window_distinct : forall k m, 0 <= m <= 65535 -> Z.of_nat k <= 65535
   NoDup (mid_seq k m).
 Proof. exact mid_seq_NoDup. Qed.
 Print Assumptions C14_window_distinct.
+
+(* the id sequence is ONE cycle through all of 1..65535: two allocations of a run return the same id
+   exactly when their distance is a multiple of 65535 (period exactly 65535, from every counter state;
+   any number of wraps) *)
+Theorem C14_same_id_iff_multiple_of_65535 : forall m i j, 1 <= m <= 65535 ->
+  mid_iter i m = mid_iter j m <-> (Z.of_nat i - Z.of_nat j) mod 65535 = 0.
+Proof. exact mid_iter_same_iff. Qed.
+Print Assumptions C14_same_id_iff_multiple_of_65535.
+
+(* no id is skipped: every value of 1..65535 is handed out within 65535 allocations *)
+Theorem C14_every_id_reached : forall m v, 1 <= m <= 65535 -> 1 <= v <= 65535 ->
+  exists k, Z.of_nat k < 65535 /\ mid_iter k m = v.
+Proof. exact mid_iter_covers. Qed.
+Print Assumptions C14_every_id_reached.
+
+(* nothing but the documented wrap interrupts the count *)
+Theorem C14_counts_up : forall m, 0 <= m < 65535 -> mid_next m = m + 1.
+Proof. exact mid_next_succ. Qed.
+Print Assumptions C14_counts_up.
+
+Example C14_period_nonvacuous : mid_iter (Z.to_nat 65535) 7 = 7 /\ mid_iter (Z.to_nat 65534) 7 = 6.
+Proof. split; vm_compute; reflexivity. Qed.
 
 (* the stored (live) QoS 1/2 messages of every state reached by a conforming history have pairwise
    distinct packet ids *)
